@@ -238,6 +238,12 @@ impl Tally {
             self.outcomes.insert((family, outcome.to_owned()), 1);
         }
     }
+    /// add `n` observations at once (for hot loops that count locally)
+    pub fn outcome_n(&mut self, family: &'static str, outcome: &str, n: u64) {
+        if n > 0 {
+            *self.outcomes.entry((family, outcome.to_owned())).or_insert(0) += n;
+        }
+    }
     /// keep at most a few samples per thread
     pub fn sample(&mut self, f: impl FnOnce() -> Value) {
         if self.samples.len() < 4 {
